@@ -159,12 +159,15 @@ def shrink(mod, viol):
         return viol
     best = viol
     budget = 400
+    # wall-clock limit per signature (slow implementations, e.g. real process pools): the replay is then the
+    # smallest failing case found so far
+    deadline = time.time() + float(os.environ.get("VERIF_SHRINK_SECONDS", getattr(mod, "SHRINK_SECONDS", 120)))
     progress = True
-    while progress and budget > 0:
+    while progress and budget > 0 and time.time() < deadline:
         progress = False
         for cand in mod.shrink_candidates(best["case"]):
             budget -= 1
-            if budget <= 0:
+            if budget <= 0 or time.time() > deadline:
                 break
             r = canon(safe_impl(mod, cand))
             vs = [v for v in (mod.oracle(cand, r) or []) if v["sig"] == best["sig"]]
